@@ -38,6 +38,7 @@ type Engine struct {
 	fnByID   map[int64]*ssa.Function
 	inits    map[string]*pkgInit
 	shortIdx map[string]*ssa.Function
+	thorough bool
 }
 
 func LoadEngine(repo string, patterns []string) (*Engine, error) {
@@ -121,6 +122,9 @@ func (e *Engine) LoadContracts() error {
 		e.cf.curPkg = modPath
 		if rel != "." {
 			e.cf.curPkg = modPath + "/" + filepath.ToSlash(rel)
+		}
+		if _, loaded := e.ssaPkgs[e.cf.curPkg]; !loaded {
+			continue
 		}
 		if err := ParseContractFile(f, e.cf); err != nil {
 			return err
